@@ -108,8 +108,12 @@ def check_make(z, nat, cs):
     got = nat.make(cs)
     if got != want: return "lookup(civil %s) = kind/pre/trans/post %s, expected %s" % (cal.from_sec(cs), got, want)
 def check_case(z, kind):
-    """kind: break | make | roundtrip | order | next | prev ; returns description of a violation or None"""
+    """kind: break | make | roundtrip | order | next | prev ; returns description of a violation or None (run in a forked
+    child: a crash or hang of the real code on the table is itself the report)"""
     if not (wf_ext(z) if z.get("ext") else wf(z)): return None
+    lib()
+    return common.isolated(_check_case, z, kind)
+def _check_case(z, kind):
     nat = Native(z)
     try:
         if not nat.ok(): return "TimeZoneInfo::Load rejects a well-formed table"
@@ -209,3 +213,63 @@ def check_transoffset(model, form):
     if got != want:
         return "TransOffset(leap=%d, jan1_weekday=%d, %s%s, time=%d) == %d, expected %d (day %d of the year)" % (leap, j1, form, (a, b, c) if form == "M" else a, t, got, want, days)
     return None
+
+# ---------------------------------------------------------------- footer panel (replay of ExtendTransitions counterexamples)
+FOOTER_PANEL = [
+    # (footer, std utc offset, dst utc offset, start rule, end rule) ; rule = (form, a, b, c, time)
+    (b"EST5EDT,M3.2.0,M11.1.0", -18000, -14400, ("M", 3, 2, 0, 7200), ("M", 11, 1, 0, 7200)),
+    (b"AEST-10AEDT,M10.1.0,M4.1.0/3", 36000, 39600, ("M", 10, 1, 0, 7200), ("M", 4, 1, 0, 10800)),
+    (b"<-03>3<-02>,M3.5.0/-2,M10.5.0/-1", -10800, -7200, ("M", 3, 5, 0, -7200), ("M", 10, 5, 0, -3600)),
+    (b"AAA3BBB,J60/0,J300/25", -10800, -7200, ("J", 60, 0, 0, 0), ("J", 300, 0, 0, 90000)),
+    (b"AAA-3BBB,59/1,300", 10800, 14400, ("N", 59, 0, 0, 3600), ("N", 300, 0, 0, 7200)),
+    (b"IST-2IDT,M3.4.4/26,M10.5.0", 7200, 10800, ("M", 3, 4, 4, 93600), ("M", 10, 5, 0, 7200)),
+]
+def rule_day(form, a, b, c, y):
+    """0-based day of the year the POSIX rule designates in year y (calendar walk)"""
+    leap = bool(cal.leap(y))
+    if form == "J": return (a - 1) + (1 if leap and a >= 60 else 0)
+    if form == "N": return a
+    doy0 = cal.rd(y, a, 1) - cal.rd(y, 1, 1)
+    days = [d for d in range(cal.dim(y, a)) if (cal.weekday(y, a, 1 + d) + 1) % 7 == c]
+    return doy0 + (days[-1] if b == 5 else days[b - 1])
+def check_footer_panel():
+    """lookups around the rule instants of near, seam and far years in zones made of one recorded transition plus a footer"""
+    lib()
+    return common.isolated(_check_footer_panel, timeout=300)
+def _check_footer_panel():
+    for footer, so, do, rs, re_ in FOOTER_PANEL:
+        u0 = cal.sec(1990, 6, 1, 0, 0, 0)
+        z = {"N": 2, "T": 2, "off": [so, do], "dst": [0, 1], "abbr": [0, 4], "default": 0, "unix": [-(1 << 40), u0], "type": [0, 0],
+             "chars": _panel_chars(footer)}
+        img = tzif(z, footer)
+        h = lib().tzr_load(img, ctypes.c_size_t(len(img)))
+        if not h: return "TimeZoneInfo::Load rejects a zone with footer %r" % footer
+        try:
+            for y in (1991, 2000, 2024, 2389, 2390, 2391, 2392, 2400, 2790, 2791, 2792, 9999, 1000003, 292277026000):
+                j = cal.sec(y, 1, 1, 0, 0, 0)
+                s = j + rule_day(rs[0], rs[1], rs[2], rs[3], y) * 86400 + rs[4] - so
+                e = j + rule_day(re_[0], re_[1], re_[2], re_[3], y) * 86400 + re_[4] - do
+                for t in (s - 1, s, e - 1, e):
+                    # DST is in force from the start instant to the end instant of the (possibly year-wrapping) cycle
+                    def indst(t, y=y):
+                        best = None
+                        for yy in (y - 1, y, y + 1):
+                            jj = cal.sec(yy, 1, 1, 0, 0, 0)
+                            ss = jj + rule_day(rs[0], rs[1], rs[2], rs[3], yy) * 86400 + rs[4] - so
+                            ee = jj + rule_day(re_[0], re_[1], re_[2], re_[3], yy) * 86400 + re_[4] - do
+                            for inst, st_ in ((ss, True), (ee, False)):
+                                if inst <= t and (best is None or inst > best[0]): best = (inst, st_)
+                        return best[1]
+                    want = do if indst(t) else so
+                    out = (ctypes.c_longlong * 9)(); lib().tzr_break(ctypes.c_void_p(h), ctypes.c_longlong(t), out)
+                    if out[6] != want:
+                        return "zone with footer %r: lookup(%d) (year %d) reports offset %d, the POSIX rule gives %d" % (footer.decode(), t, y, out[6], want)
+        finally:
+            lib().tzr_free(ctypes.c_void_p(h))
+    return None
+def _panel_chars(footer):
+    """abbreviation table holding the footer's two names at indexes 0 and 4.. (only used for type matching)"""
+    import re
+    names = re.findall(rb"<[^>]*>|[A-Za-z]{3,}", footer)[:2]
+    names = [n.strip(b"<>") for n in names]
+    return names[0] + b"\0" + names[1] + b"\0"
